@@ -363,11 +363,7 @@ impl FormattingError {
             | ErrorKind::DeprecatedAttr
             | ErrorKind::BadAttr
             | ErrorKind::LostComment => {
-                let trailing_ws_start = self
-                    .line_buffer
-                    .rfind(|c: char| !c.is_whitespace())
-                    .map(|pos| pos + 1)
-                    .unwrap_or(0);
+                let trailing_ws_start = self.line_buffer.trim_end().len();
                 (
                     trailing_ws_start,
                     self.line_buffer.len() - trailing_ws_start,
